@@ -19,6 +19,7 @@ A *description* is a JSON-able dict:
 """
 import copy
 import json
+import pickle
 
 from . import common, markup_models as mm
 from .common import MachineryError
@@ -186,6 +187,20 @@ def gen_case(rng, hier, knobs=None):
     # walk the models somewhere, then the history run on original and rebuilt machine
     for _ in range(rng.randint(0, 4)):
         desc['mods'].append(['trigger', rng.randrange(len(models)), _rand_trigger(rng, desc, pool, trig)])
+    # read-only observers and pickle / deepcopy restores, interleaved anywhere (incl. at the very end, where
+    # no later dirty-setting call can repair the cached markup)
+    extra = []
+    if desc['graph']:
+        for _ in range(rng.randint(1, 3)):
+            extra.append(['observe', rng.choice(['graph', 'roi', 'roi', 'title', 'combined', 'force']),
+                          rng.randrange(len(models)), None])
+    if rng.random() < knobs.get('p_observe', 0.4):
+        extra.append(['observe', rng.choice(['markup', 'config', 'transitions', 'may']), rng.randrange(len(models)),
+                      _rand_trigger(rng, desc, pool, trig)])
+    if rng.random() < knobs.get('p_clone', 0.3):
+        extra.append(['clone', rng.choice(['pickle', 'deepcopy'])])
+    for m in extra:
+        desc['mods'].insert(rng.randint(0, len(desc['mods'])), m)
     for _ in range(rng.randint(6, 14)):
         desc['history'].append([rng.randrange(len(models)), _rand_trigger(rng, desc, pool, trig)])
     return desc
@@ -331,8 +346,43 @@ def apply_mod(machine, mod):
         getattr(machine, '%s_%s' % (mod[1], mod[2]))(mod[3])
     elif k == 'trigger':
         fire(machine, mod[1], mod[2])
+    elif k == 'observe':
+        observe(machine, mod[1], mod[2], mod[3])
+    elif k == 'clone':
+        # both go through __getstate__/__setstate__; the clone replaces the machine from here on
+        return pickle.loads(pickle.dumps(machine)) if mod[1] == 'pickle' else copy.deepcopy(machine)
     else:
         raise MachineryError('unknown modification %r' % (mod,))
+    return machine
+
+
+def observe(machine, kind, midx, name):
+    """read-only API calls: nothing about the machine may change, its markup least of all"""
+    model = machine.models[midx]
+    mm.RECORDER['log'] = None
+    if kind == 'graph':
+        model.get_graph()
+    elif kind == 'roi':
+        model.get_graph(show_roi=True)
+    elif kind == 'title':
+        model.get_graph(title='another title')
+    elif kind == 'combined':
+        machine.get_combined_graph(show_roi=(midx % 2 == 1))
+    elif kind == 'force':
+        model.get_graph(force_new=True)
+    elif kind == 'markup':
+        json.dumps(machine.markup)
+    elif kind == 'config':
+        machine.get_markup_config()
+    elif kind == 'transitions':
+        machine.get_transitions()
+    elif kind == 'may':
+        try:
+            model.may_trigger(name)
+        except Exception:      # unknown trigger names etc.: C12's business
+            pass
+    else:
+        raise MachineryError('unknown observer %r' % kind)
 
 
 # ---------------------------------------------------------------------------------------------
@@ -445,6 +495,13 @@ class Expect(object):
             self.remove_transition(mod[1], mod[2], mod[3])
         elif k in ('state_cb', 'helper_cb'):
             self.find(mod[2])[mod[1]].append(mod[3])
+        elif k == 'clone' and mod[1] == 'deepcopy' and self.hier:
+            # NestedTransition.__deepcopy__ copies the callback lists shallowly one by one: lists that were shared
+            # between the transitions of one definition (see add_transition) are separate objects in the copy
+            for es in self.trans.values():
+                for e in es:
+                    for key in ('prepare', 'before', 'after'):
+                        e[key] = list(e[key])
         elif k == 'trans_cb':
             for e in self.trans['']:
                 if e['trigger'] == mod[2]:
@@ -472,6 +529,8 @@ def mod_is_valid(exp, mod):
         return any(e['trigger'] == mod[2] for e in exp.trans[''])
     if k in ('state_cb', 'helper_cb'):
         return exp.find(mod[2]) is not None
+    if k == 'observe' and mod[1] in ('graph', 'roi', 'title', 'combined', 'force'):
+        return bool(exp.desc.get('graph'))
     return True
 
 
